@@ -33,6 +33,7 @@ class Scalings:
     undecided: List[str] = field(default_factory=list)
     methods: List[str] = field(default_factory=list)
     rebinds_by: List[tuple] = field(default_factory=list)
+    nodes: Dict[str, ast.AST] = field(default_factory=dict)        # short(function) -> the tree the model interpreted
 
 
 def effective(ctx, cls: str) -> Scalings:
@@ -66,6 +67,17 @@ def _interp(ctx, cls: str, q: str, out: Scalings, depth: int, self_is_subject: b
         return
     out.methods.append(q)
     fn = M.nfn(q)
+    # locals that merely name an attribute of another local (`samples = rated.samples`, `t = rated.preview_time`) stand for it; the
+    # names bound to calls (the copy, the stack, the rated charts) are what the model follows and keep theirs
+    attr_locals = {n.targets[0].id for n in ast.walk(fn.node) if isinstance(n, ast.Assign) and len(n.targets) == 1 and isinstance(n.targets[0], ast.Name)
+                   and isinstance(n.value, ast.Attribute) and isinstance(n.value.value, ast.Name)}
+    all_locals = {n.targets[0].id for n in ast.walk(fn.node) if isinstance(n, ast.Assign) and len(n.targets) == 1 and isinstance(n.targets[0], ast.Name)}
+    if attr_locals:
+        try:
+            fn = M.nfn(q, subst=True, keep=tuple(sorted(all_locals - attr_locals)))
+        except Exception:
+            fn = M.nfn(q)
+    out.nodes[short(q)] = fn.node
     ps = [p for p in params_of(fn.node) if p not in ("self", "cls")]
     if len(ps) != 1:
         out.undecided.append(f"{short(q)}: expected exactly one rate parameter")
